@@ -71,7 +71,7 @@ mod verif_codecs {
     }
 
     // ------------------------------------------------------------------ C09
-    //@defaults unit=U09.4 props=C09 tier=thorough level=bounded bound="one contour of 1 point, every i16 coordinate pair, on-curve flag symbolic" timeout=2400
+    //@defaults unit=U09.4 props=C09,C04 tier=thorough level=bounded bound="one contour of 1 point, every i16 coordinate pair, on-curve flag symbolic" timeout=2400
     //@harness fns=SimpleGlyph::write_into,SimpleGlyph::compute_point_deltas,flag_and_delta,RepeatableFlag::iter_from_flags,read_fonts::SimpleGlyph::points,read_fonts::SimpleGlyph::read_points_fast note="the first point's delta is its coordinate, so every i16 delta value (skip / short +- / long encodings and their boundaries) is exercised on both axes"
     #[kani::proof]
     #[kani::unwind(6)]
@@ -110,7 +110,7 @@ mod verif_codecs {
         kani::cover!(x0 == 255 && y0 == 0);
         kani::cover!(y0 == i16::MIN);
     }
-    //@defaults unit=U09.4 props=C09 tier=thorough level=bounded bound="one contour of 2 points, every coordinate pair whose deltas fit i16, on-curve flags symbolic" timeout=2400
+    //@defaults unit=U09.4 props=C09,C04 tier=thorough level=bounded bound="one contour of 2 points, every coordinate pair whose deltas fit i16, on-curve flags symbolic" timeout=2400
     //@harness fns=SimpleGlyph::write_into,SimpleGlyph::compute_point_deltas,flag_and_delta,RepeatableFlag::iter_from_flags,read_fonts::SimpleGlyph::points,read_fonts::SimpleGlyph::read_points_fast
     #[kani::proof]
     #[kani::unwind(8)]
